@@ -22,6 +22,9 @@ EXTENDS Deb822EditP
 L(k, key, sp, v) == [k |-> k, key |-> key, sp |-> sp, v |-> v]
 BL == L("B", 0, 0, 0)
 TopL(l) == [t |-> "L", ls |-> <<l>>]
+\* a comment line written as tokens directly under ROOT (what Deb822::wrap_and_sort produces): not an
+\* EMPTY_LINE node, so delete_trailing_space() stops in front of it
+TokL(l) == [t |-> "T", ls |-> <<l>>]
 Par(ls) == [t |-> "P", ls |-> ls]
 
 RECURSIVE FlattenEls(_)
@@ -103,8 +106,11 @@ RenameRet(s, p, k) == FirstIdx(ParaApi(s.els[PIdx(s.els)[p]].ls), k) # 0
 
 \* ---- Deb822::add_paragraph  (insert_empty_paragraph(None))
 \* [D5] intended: an unterminated last line is terminated before the separator
+\* the separator is added when ROOT has child NODES (root-level comment tokens do not count)
 AddParaI(s) ==
-  IF s.els = <<>> THEN St(<<Par(<<>>)>>, TRUE) ELSE St(s.els \o <<TopL(BL), Par(<<>>)>>, TRUE)
+  IF \E x \in 1..Len(s.els) : s.els[x].t \in {"L", "P"}
+  THEN St(s.els \o <<TopL(BL), Par(<<>>)>>, TRUE)
+  ELSE St(s.els \o <<Par(<<>>)>>, TRUE)
 
 \* ---- Deb822::insert_paragraph(i)   (0-based)
 \* [D4] intended: index i addresses the i-th PARAGRAPH also for i = 0
@@ -123,7 +129,7 @@ RemoveParaI(s, i) ==
   LET es == s.els  pi == PIdx(es) IN
   IF i >= Len(pi) THEN s
   ELSE LET e == pi[i+1]
-           blankNext == e + 1 <= Len(es) /\ es[e+1].t = "L"
+           blankNext == e + 1 <= Len(es) /\ es[e+1].t = "L"      \* an EMPTY_LINE node (token lines stay)
            hi == IF blankNext THEN e + 1 ELSE e
            es2 == Splice(es, e, hi, <<>>)
            removedLast == \A x \in (hi+1)..Len(es) : es[x].ls = <<>>
@@ -131,8 +137,19 @@ RemoveParaI(s, i) ==
 
 \* every PARAGRAPH element is last or followed by a blank top-level line
 AfterParaBlank(s) ==
-  \A e \in 1..Len(s.els) : s.els[e].t = "P" /\ e < Len(s.els) =>
-       s.els[e+1].t = "L" /\ s.els[e+1].ls[1].k = "B"
+  \A e \in 1..Len(s.els) : s.els[e].t = "P" /\ e < Len(s.els) /\ s.els[e+1].t = "L" => s.els[e+1].ls[1].k = "B"
+
+\* ---- Deb822::wrap_and_sort(None, None): a NEW document - comment lines collected in front of the next
+\* paragraph (as root-level tokens), exactly one blank line between paragraphs, remaining comments last;
+\* an unterminated last line is terminated
+RECURSIVE WrapFrom(_,_,_,_)
+WrapFrom(es, i, pending, acc) ==
+  IF i > Len(es) THEN acc \o pending
+  ELSE IF es[i].t = "P" THEN
+         WrapFrom(es, i + 1, <<>>, acc \o (IF \E j \in 1..Len(acc) : acc[j].t = "P" THEN <<TopL(BL)>> ELSE <<>>) \o pending \o <<es[i]>>)
+  ELSE IF es[i].ls[1].k = "#" THEN WrapFrom(es, i + 1, Append(pending, TokL(es[i].ls[1])), acc)
+  ELSE WrapFrom(es, i + 1, pending, acc)
+WrapI(s) == St(WrapFrom(s.els, 1, <<>>, <<>>), TRUE)
 
 ItemsInv(s) ==
   LET tl == TextLines(s.els) IN
